@@ -30,6 +30,7 @@ def apply() -> None:
     from crosshair.tracers import NoTracing, ResumedTracing
     from crosshair.core import _PATCH_REGISTRATIONS as _REG
     from crosshair.core import realize
+    from crosshair.core import deep_realize as _deep_realize
 
     SMV = _b.SymbolicMemoryView
 
@@ -144,6 +145,29 @@ def apply() -> None:
             return bytes(source)
 
     _REG[bytes] = _bytes2
+
+    # f"{exc}" / format(exc): CrossHair deep-realises the whole exception object (including error_info payloads
+    # that hold symbolic packet bytes) just to format its message.  BaseException.__str__ only looks at args.
+    def _format2(obj, format_spec=""):
+        with NoTracing():
+            if isinstance(format_spec, _b.AnySymbolicStr):
+                format_spec = realize(format_spec)
+            if format_spec in ("", "s") and isinstance(obj, _b.AnySymbolicStr):
+                return obj
+            if format_spec in ("", "s") and isinstance(obj, BaseException) and type(obj).__str__ is BaseException.__str__:
+                args = obj.args
+                if len(args) == 0:
+                    return ""
+                if len(args) == 1:
+                    with ResumedTracing():
+                        return str(args[0])
+            obj = _deep_realize(obj)
+            result = _b.invoke_dunder(obj, "__format__", format_spec)
+            if result is not _b._MISSING:
+                return result
+        return format(obj, format_spec)
+
+    _REG[format] = _format2
 
     # map() is a C iterator: the mapped function is then called outside the tracer and symbolic arguments get
     # realised (easynetwork's iter_bytes = map(int.to_bytes, buffer)).  Model: the equivalent lazy generator.
